@@ -452,7 +452,7 @@ Proof.
     eapply safe_bind; [apply ns_exists_safe; auto|]. intros ex _. cbv beta.
     destruct ex; [apply err_from_safe; auto|].
     destruct (negb _); [apply Hpush|cbn; auto].
-  - destruct (bytes_eqb _ xmlns_str).
+  - destruct (_ && bytes_eqb _ xmlns_str).
     + destruct (bytes_eqb _ ns_xml_uri); [apply err_from_safe; auto|].
       destruct (bytes_eqb _ ns_xmlns_uri); [apply err_from_safe; auto|].
       eapply safe_bind; [apply ns_exists_safe; auto|]. intros ex _. cbv beta.
